@@ -318,11 +318,15 @@ struct MacroDetector {
     G.add(VALUE >>
               (term(Token::RUN), ID, term(Token::WITH), ARGS, term(Token::END)),
           default_accumulator);
+    // a call without arguments is a value as well
+    G.add(VALUE >> (term(Token::RUN), ID, term(Token::WITH), term(Token::END)),
+          default_accumulator);
     G.add(ARGS >> VALUE, default_accumulator);
     G.add(ARGS >> (ARGS, term(Token::ARGSEP), VALUE), default_accumulator);
     G.add(P >> (P, term(Token::PROGSEP), STATEMENT), default_accumulator);
     G.add(P >> STATEMENT, default_accumulator);
-    G.add(STATEMENT >> (ID, term(Token::LABELDEC), ATOMIC_P),
+    // a statement may carry any number of labels
+    G.add(STATEMENT >> (ID, term(Token::LABELDEC), STATEMENT),
           default_accumulator);
     G.add(STATEMENT >> ATOMIC_P, default_accumulator);
     G.add(ATOMIC_P >> (ID, term(Token::ASSIGN), VALUE), default_accumulator);
